@@ -21,8 +21,9 @@ Follows the source:
 `Cfg` switches select, branch by branch, the behaviour of the unrepaired source (`current` = the
 snapshot, `head8` = after the first eight repairs) or the intended/repaired one (`fixed`).  Theorems are about `fixed`; `current` is used for the
 counterexample theorems and is also run against the implementation.
-Not modelled: the sample *buffer* sharing between a slice (a numpy view) and its parent — the
-parent of a slice is dropped from the state.
+A slice owns a copy of its samples in the repaired code (`sliceIsView = false`): its parent stays in
+the state (`kept`) and must not be touched by operations on the slice.  Not modelled: the write-through
+of the unrepaired view semantics (there the parent is dropped from the state).
 -/
 import Nitime.Model.F64
 import Nitime.Model.Units
@@ -58,13 +59,17 @@ structure Cfg where
   /-- `index_at` tests the range as `t0 ≤ t < t0 + duration` only (refuses everything on an axis
   with a negative interval, e.g. a reversed slice) -/
   lookupPositiveOnly : Bool
+  /-- a slice is a numpy view of its parent's sample buffer (in-place operations on the slice move
+  some of the parent's samples; not expressible here: the parent is dropped from the state).
+  Repaired: a slice owns a copy of its samples and the parent stays observable in `kept` -/
+  sliceIsView : Bool
   deriving Repr, DecidableEq
 
-def fixed : Cfg := ⟨false, false, false, false, false, false, false, false, false, false⟩
+def fixed : Cfg := ⟨false, false, false, false, false, false, false, false, false, false, false⟩
 /-- the original snapshot -/
-def current : Cfg := ⟨true, true, true, true, true, true, true, false, true, true⟩
+def current : Cfg := ⟨true, true, true, true, true, true, true, false, true, true, true⟩
 /-- /repo after the first eight repairs (before C17-09…11) -/
-def head8 : Cfg := ⟨false, false, false, false, false, false, false, true, true, true⟩
+def head8 : Cfg := ⟨false, false, false, false, false, false, false, true, true, true, true⟩
 
 /-! ### object store -/
 abbrev ObjId := Nat
@@ -298,7 +303,7 @@ def step (cfg : Cfg) (s : State) (op : Op) : State × Option Err :=
         ({ s with store := store', cur := ax' }, none)
       else
         let (store', ax') := setSampling s.store samples ax.unit ax.rate (t0 + start * dt) (dt * c)
-        ({ s with store := store', cur := ax' }, none)
+        ({ store := store', cur := ax', kept := if cfg.sliceIsView then s.kept else ax :: s.kept }, none)
   | .copy =>
     let (store', ax') := inheritAttrs cfg s.store ax ax.samples
     ({ store := store', cur := ax', kept := ax :: s.kept }, none)
